@@ -7,7 +7,6 @@ import (
 
 	"verif/engine/e2"
 	"verif/engine/explore"
-	"verif/harness/chordlib"
 )
 
 // debugScn: VERIF_DEBUG_SCN=<name> VERIF_DEBUG_BOUND=<n> runs one scenario in-process.
@@ -26,39 +25,6 @@ func debugScn(lk e2.Lookup) bool {
 	st := explore.Explore(explore.Config{Bound: b, FreeBound: fb, TotalBound: envInt("VERIF_DEBUG_TOTAL"), MaxExec: mx}, lk(name))
 	fmt.Printf("scn=%s bound=%d exec=%d trans=%d maxpts=%d outcomes=%d capped=%v viol=%q internal=%q choices=%v in %v\n", name, b, st.Executions, st.Transitions, st.MaxPoints, len(st.Outcomes), st.Capped, st.Violation, st.Internal, st.Choices, time.Since(t0))
 	return true
-}
-
-func init() {
-	if os.Getenv("VERIF_DEBUG_CHURN") != "" {
-		defer os.Exit(0)
-		b, _ := os.ReadFile(os.Getenv("VERIF_DEBUG_CHURN"))
-		var f struct {
-			Replay churnCase `json:"replay"`
-		}
-		jsonUnmarshal(b, &f)
-		cs := f.Replay
-		w, _ := chordlib.NewWorld(cs.First, nil)
-		dump := func(tag string) {
-			fmt.Println("==", tag)
-			for _, n := range w.Ring.Sorted() {
-				p := n.VerifPointers()
-				fmt.Printf("  node %d state=%v pred=%d succ=%v f1=%d f48=%d\n", p.ID, p.State, p.Pred, p.Succ, p.Fingers[1], p.Fingers[48])
-			}
-		}
-		for _, e := range cs.Events {
-			_, note := w.Apply(e)
-			dump(e.String() + " " + note)
-		}
-		for i := 0; i < 4; i++ {
-			for _, n := range w.Ring.Sorted() {
-				n.VerifCheckPredecessor()
-				dump(fmt.Sprintf("round %d checkPred(%d)", i, n.ID()))
-				n.VerifStabilize()
-				dump(fmt.Sprintf("round %d stabilize(%d)", i, n.ID()))
-				n.VerifFixFinger()
-			}
-		}
-	}
 }
 
 func envInt(k string) int {
